@@ -284,6 +284,7 @@ Definition rv_post (fixed : bool) (bs : N) (r : mrecv) (acc : bytes) (vl : N) (m
   snd m <= rv_phi bs r /\
   match fst m with
   | Ok (acc', vl', r') =>
+      snd m + mr_avail r' <= rv_phi bs r /\
       mr_inv r' /\ s_final_eof (mr_s r') = s_final_eof (mr_s r) /\ mr_avail r' <= mr_avail r /\
       vl <= vl' /\ (vl < vl' -> mr_avail r' + 1 <= mr_avail r) /\
       vl' + mr_avail r' <= vl + mr_avail r + (if mr_sent r then 0 else bs) /\
@@ -300,21 +301,21 @@ Proof.
   cbn [read_value_loop].
   pose proof (mr_read_spec fixed bs r HI Hbs) as [S1 S2]. cbv zeta in S1, S2.
   destruct (mr_read fixed bs r) as [res al] eqn:Em. cbn [fst snd] in S1, S2.
-  unfold rv_post, rv_phi, mbind, alloc. cbn [fst snd].
+  unfold rv_post, rv_phi, mbind, alloc, mret. cbn [fst snd].
   destruct (mr_sent r) eqn:Es.
-  - destruct (S1 eq_refl) as (Z1 & r' & Z2 & Z3 & Z4 & Z5 & Z6). subst res al. cbn [fst snd mret].
+  - destruct (S1 eq_refl) as (Z1 & r' & Z2 & Z3 & Z4 & Z5 & Z6). subst res al. cbn [fst snd].
     replace (len (@nil N) =? 0) with true by reflexivity. cbn [fst snd].
-    split; [lia|]. repeat split; auto; try lia.
+    split; [lia|]. split; [lia|]. split; [exact Z4|]. repeat split; auto; try lia.
     intros H. rewrite len_app. pose proof (len_overwrite [] chunk). lia.
   - specialize (S2 eq_refl). unfold rd_post in S2. cbv zeta in S2. cbn [fst snd] in S2.
     destruct S2 as [A0 A1].
     destruct res as [[x r']| |]; cbn [fst snd]; [| split; [lia|exact A1] | split; [lia|exact A1]].
     destruct A1 as (B1 & B2 & B3 & B4).
     destruct x as [d|]; cbn [fst snd mret].
-    2:{ split; [lia|]. repeat split; auto; try lia. intros H. rewrite len_app. lia. }
+    2:{ split; [lia|]. split; [lia|]. split; [exact B1|]. repeat split; auto; try lia. intros H. rewrite len_app. lia. }
     destruct B4 as (C1 & C2 & C3).
     destruct (N.eqb_spec (len d) 0) as [Hd|Hd]; cbn [fst snd mret].
-    { split; [lia|]. repeat split; auto; try lia. intros H. rewrite len_app. lia. }
+    { split; [lia|]. split; [lia|]. split; [exact B1|]. repeat split; auto; try lia. intros H. rewrite len_app. lia. }
     assert (Hav : mr_avail r' + 1 <= mr_avail r) by (apply C1; lia).
     specialize (IH r' (overwrite d chunk) (acc ++ overwrite d chunk) (vl + len d) B1 Hbs).
     assert (Hf' : mr_avail r' + 1 <= N.of_nat f) by lia. specialize (IH Hf').
@@ -327,9 +328,212 @@ Proof.
       - destruct (Z.eqb_spec (mr_tl r') 0); [contradiction|]. lia. }
     split; [exact Hal|].
     destruct res2 as [[[acc' vl'] r'']| |]; auto.
-    destruct I1 as (D1 & D2 & D3 & D4 & D5 & D6 & D7).
+    destruct I1 as (D0 & D1 & D2 & D3 & D4 & D5 & D6 & D7).
+    split.
+    { destruct C3 as [C3|(C3 & C4 & C5 & C6 & C7)]; rewrite C3 in D0.
+      - lia.
+      - destruct (Z.eqb_spec (mr_tl r') 0); [contradiction|]. lia. }
     split; [exact D1|]. split; [congruence|]. split; [lia|]. split; [lia|]. split; [intros; lia|].
     split.
     + destruct C3 as [C3|(C3 & C4 & C5 & C6 & C7)]; rewrite C3 in D6; lia.
     + intros H. apply D7. rewrite len_app. pose proof (len_overwrite d chunk). lia.
+Qed.
+
+Definition st_Q (r : mrecv) (r' : mrecv) : Prop :=
+  mr_inv r' /\ s_final_eof (mr_s r') = s_final_eof (mr_s r) /\ mr_avail r' <= mr_avail r.
+
+Lemma st_Q_refl r : mr_inv r -> st_Q r r.
+Proof. unfold st_Q. intros H; split; [exact H|split; [reflexivity|lia]]. Qed.
+Lemma st_Q_trans a b c : st_Q a b -> st_Q b c -> st_Q a c.
+Proof. unfold st_Q. intros (A1 & A2 & A3) (B1 & B2 & B3). split; [exact B1|split; [congruence|lia]]. Qed.
+
+(* ReadValue: allocation is paid by what the value consumes from the stream (factor 2) plus a
+   constant in the buffer size *)
+Lemma read_value_spec fixed bs r D :
+  mr_inv r -> bs <= 281474976710656 ->
+  rspecP (fixed = false) 0 0 (2 * mr_avail r + (5 * bs + 8) + D) (read_value fixed bs r)
+    (fun x => 2 * mr_avail (snd x) + D)
+    (fun x => st_Q r (snd x) /\
+              (forall v, fst x = Some v -> 1 <= len v /\ mr_avail (snd x) + 1 <= mr_avail r)).
+Proof.
+  intros HI Hbs. unfold read_value.
+  pose proof (rv_loop_spec fixed bs (rv_fuel r) r (repeat 0 (N.to_nat bs)) [] 0 HI Hbs) as HL.
+  assert (Hf : mr_avail r + 1 <= N.of_nat (rv_fuel r)) by (unfold rv_fuel; lia).
+  specialize (HL Hf). unfold rv_post, rv_phi in HL.
+  destruct (read_value_loop fixed (rv_fuel r) bs r (repeat 0 (N.to_nat bs)) [] 0) as [res al].
+  cbn [fst snd] in HL. destruct HL as [L0 L1].
+  assert (Hk : (if mr_sent r then bs else 3 * bs + (if (mr_tl r =? 0)%Z then 8 else 0)) <= 3 * bs + 8).
+  { destruct (mr_sent r); [lia|]. destruct (mr_tl r =? 0)%Z; lia. }
+  unfold rspecP, mbind, alloc. cbn [fst snd].
+  destruct res as [[[acc vl] r']| |]; cbn [fst snd].
+  - destruct L1 as (D0 & D1 & D2 & D3 & D4 & D5 & D6 & D7).
+    assert (Hs : (if mr_sent r then 0 else bs) <= bs) by (destruct (mr_sent r); lia).
+    destruct (N.eqb_spec vl 0) as [Hv|Hv]; unfold mret; cbn [fst snd].
+    + split; [lia|]. split; [split; [exact D1|split; [exact D2|exact D3]]|]. intros v; discriminate.
+    + split; [lia|]. split; [split; [exact D1|split; [exact D2|exact D3]]|].
+      intros v Ev. assert (v = takeN vl acc) by congruence. subst v.
+      rewrite len_takeN. specialize (D7 ltac:(rewrite len_nil; lia)). split; [lia|]. apply D5. lia.
+  - split; [exact L1|lia].
+  - split; [exact L1|lia].
+Qed.
+
+Lemma read_value_e_spec fixed bs r D :
+  mr_inv r -> bs <= 281474976710656 ->
+  rspecP (fixed = false) 0 0 (2 * mr_avail r + (5 * bs + 8) + D) (read_value_e fixed bs r)
+    (fun x => 2 * mr_avail (snd x) + D)
+    (fun x => st_Q r (snd x) /\ 1 <= len (fst x) /\ mr_avail (snd x) + 1 <= mr_avail r).
+Proof.
+  intros HI Hbs. unfold read_value_e.
+  eapply rspecP_step; [apply (read_value_spec fixed bs r D HI Hbs) | lia | lia |].
+  intros [[v|] r'] [Q1 Q2]; cbn [fst snd] in *.
+  - destruct (Q2 v eq_refl). apply rspecP_ret; [cbn [snd]; lia|]. cbn [fst snd]. auto.
+  - apply rspecP_err; discriminate.
+Qed.
+
+(* ---------------- the typed receivers ---------------- *)
+Definition W (bs : N) : N := 5 * bs + 8.    (* what one ReadValue costs beyond the bytes it consumes *)
+
+Lemma kv_next_spec fixed bs r D :
+  mr_inv r -> bs <= 281474976710656 ->
+  rspecP (fixed = false) 0 0 (2 * mr_avail r + W bs + D) (kv_next fixed bs r)
+    (fun x => 2 * mr_avail (snd x) + D)
+    (fun x => st_Q r (snd x) /\ 1 <= len (fst x) /\ mr_avail (snd x) + 1 <= mr_avail r).
+Proof. intros. unfold kv_next, W. apply read_value_e_spec; auto. Qed.
+
+Lemma number_from_spec P b X :
+  rspecP P 0 0 (X + 8) (number_from b) (fun _ => X) (fun _ => True).
+Proof.
+  unfold number_from. apply (rspecP_alloc_then P 8 X); [lia|].
+  destruct (len b <? 8); [apply rspecP_err; discriminate | apply rspecP_ret; [lia|auto]].
+Qed.
+
+Lemma z_next_spec fixed bs r :
+  mr_inv r -> bs <= 281474976710656 ->
+  rspecP (fixed = false) 0 0 (2 * mr_avail r + 4 * W bs + 16) (z_next fixed bs r)
+    (fun x => 2 * mr_avail (snd x)) (fun x => st_Q r (snd x)).
+Proof.
+  intros HI Hbs. unfold z_next, W.
+  eapply rspecP_step; [apply (read_value_e_spec fixed bs r (3 * (5 * bs + 8) + 16) HI Hbs) | lia | lia |].
+  intros [set r1] (Q1 & _ & _). cbn [snd] in *. pose proof Q1 as (I1 & _ & _).
+  eapply rspecP_step; [apply (read_value_e_spec fixed bs r1 (2 * (5 * bs + 8) + 16) I1 Hbs) | lia | lia |].
+  intros [key r2] (Q2 & _ & _). cbn [snd] in *. pose proof Q2 as (I2 & _ & _).
+  eapply rspecP_step; [apply (read_value_e_spec fixed bs r2 (1 * (5 * bs + 8) + 16) I2 Hbs) | lia | lia |].
+  intros [sc r3] (Q3 & _ & _). cbn [snd] in *. pose proof Q3 as (I3 & _ & _).
+  eapply rspecP_step; [apply (read_value_e_spec fixed bs r3 16 I3 Hbs) | lia | lia |].
+  intros [tx r4] (Q4 & _ & _). cbn [snd] in *.
+  eapply rspecP_step; [apply (number_from_spec (fixed = false) sc (2 * mr_avail r4 + 8)) | lia | lia |].
+  intros score _.
+  eapply rspecP_step; [apply (number_from_spec (fixed = false) tx (2 * mr_avail r4)) | lia | lia |].
+  intros attx _. apply rspecP_ret; [cbn [snd]; lia|]. cbn [snd].
+  eapply st_Q_trans; [|exact Q4]. eapply st_Q_trans; [|exact Q3]. eapply st_Q_trans; [exact Q1|exact Q2].
+Qed.
+
+Lemma ventry_next_spec fixed bs r :
+  mr_inv r -> bs <= 281474976710656 ->
+  rspecP (fixed = false) 0 0 (2 * mr_avail r + 3 * W bs) (ventry_next fixed bs r)
+    (fun x => 2 * mr_avail (snd x)) (fun x => st_Q r (snd x)).
+Proof.
+  intros HI Hbs. unfold ventry_next, W.
+  eapply rspecP_step; [apply (read_value_e_spec fixed bs r (2 * (5 * bs + 8)) HI Hbs) | lia | lia |].
+  intros [a r1] (Q1 & _ & _). cbn [snd] in *. pose proof Q1 as (I1 & _ & _).
+  eapply rspecP_step; [apply (read_value_e_spec fixed bs r1 (1 * (5 * bs + 8)) I1 Hbs) | lia | lia |].
+  intros [b r2] (Q2 & _ & _). cbn [snd] in *. pose proof Q2 as (I2 & _ & _).
+  eapply rspecP_step; [apply (read_value_e_spec fixed bs r2 0 I2 Hbs) | lia | lia |].
+  intros [c r3] (Q3 & _ & _). cbn [snd] in *.
+  apply rspecP_ret; [cbn [snd]; lia|]. cbn [snd].
+  eapply st_Q_trans; [|exact Q3]. eapply st_Q_trans; [exact Q1|exact Q2].
+Qed.
+
+Lemma execall_loop_spec fixed bs fuel : forall r,
+  mr_inv r -> bs <= 281474976710656 -> mr_avail r + 1 <= N.of_nat fuel ->
+  rspecP (fixed = false) 0 0 ((mr_avail r + 2) * W bs + 2 * mr_avail r)
+    (execall_next_loop fixed fuel bs r) (fun _ => 0) (fun x => st_Q r (snd x)).
+Proof.
+  induction fuel as [|f IH]; intros r HI Hbs Hf; [lia|].
+  cbn [execall_next_loop].
+  assert (HW : (mr_avail r + 2) * W bs = (mr_avail r + 1) * W bs + W bs) by lia.
+  eapply rspecP_step; [apply (read_value_e_spec fixed bs r ((mr_avail r + 1) * W bs) HI Hbs) | unfold W in *; lia | lia |].
+  intros [t r1] (Q1 & Ht & Hav). cbn [fst snd] in *. pose proof Q1 as (I1 & _ & _).
+  destruct (at_ok t 0) as [t0 Ht0]; [lia|]. rewrite Ht0.
+  unfold lift at 1. apply (rspecP_ret_step (fixed = false) t0).
+  assert (HM : (mr_avail r1 + 2) * W bs <= (mr_avail r + 1) * W bs) by (apply N.mul_le_mono_r; lia).
+  assert (HM1 : (mr_avail r1 + 1) * W bs + W bs = (mr_avail r1 + 2) * W bs) by lia.
+  destruct (t0 =? 1).
+  { eapply rspecP_step; [apply (kv_next_spec fixed bs r1 (mr_avail r * W bs) I1 Hbs) | lia | lia |].
+    intros [key r2] (Q2 & _ & _). cbn [snd] in *. apply rspecP_ret; [lia|]. cbn [snd].
+    eapply st_Q_trans; eauto. }
+  destruct (t0 =? 2).
+  { pose proof (read_value_spec fixed bs r1 (mr_avail r * W bs) I1 Hbs) as HR.
+    unfold rspecP in *. unfold W in *.
+    destruct (read_value fixed bs r1) as [res al]. cbn [fst snd] in *.
+    destruct res as [[raw r2]| |]; cbn [fst snd] in *.
+    - destruct HR as [H1 [Q2 _]]. split; [lia|]. eapply st_Q_trans; eauto.
+    - destruct HR as [H1 H2]. split; [lia|exact Q1].
+    - destruct HR as [H1 H2]. split; [exact H1|lia]. }
+  destruct (t0 =? 4); [apply rspecP_err; discriminate|].
+  eapply rspecP_weaken; [apply (IH r1 I1 Hbs) | lia | lia | lia |]; [lia|].
+  intros [op r2] Q2. cbn [snd] in *. split; [lia|]. eapply st_Q_trans; eauto.
+Qed.
+
+(* ---------------- the property theorems about the receivers ---------------- *)
+Lemma mr_new_inv s : mr_inv (mr_new s) /\ mr_avail (mr_new s) = len (concat (s_chunks s)).
+Proof. unfold mr_inv, mr_avail, mr_new; cbn [mr_sz mr_tl mr_b mr_s]. rewrite len_nil. lia. Qed.
+
+Definition st_total {A} (fixed : bool) (m : M A) (bound : N) : Prop :=
+  fst m <> Err EFuel /\ (fixed = true -> fst m <> Panic) /\ snd m <= bound.
+
+Lemma st_total_of {A} fixed K E phi (m : M A) phi' Q bound :
+  rspecP (fixed = false) K E phi m phi' Q -> phi + N.max K E <= bound -> st_total fixed m bound.
+Proof.
+  intros H Hb. apply rspecP_facts in H as (H1 & H2 & H3). unfold st_total. repeat split; auto; try lia.
+  intros ->. apply H2. discriminate.
+Qed.
+
+Theorem mr_read_total fixed n r :
+  mr_inv r -> n <= 281474976710656 -> st_total fixed (mr_read fixed n r) (8 + n).
+Proof.
+  intros HI Hn. destruct (mr_read_spec fixed n r HI Hn) as [S1 S2]. unfold st_total.
+  destruct (mr_sent r) eqn:Es.
+  - destruct (S1 eq_refl) as (Z1 & r' & Z2 & _). rewrite Z2, Z1. repeat split; try discriminate; lia.
+  - specialize (S2 eq_refl). unfold rd_post in S2. cbv zeta in S2. destruct S2 as [A0 A1].
+    assert ((if (mr_tl r =? 0)%Z then 8 else 0) <= 8) by (destruct (mr_tl r =? 0)%Z; lia).
+    destruct (fst (mr_read fixed n r)) as [[x r']| |]; repeat split; try discriminate; try lia.
+    + intros X; apply A1; congruence.
+    + intros ->. discriminate.
+Qed.
+
+Theorem read_value_total fixed bs r :
+  mr_inv r -> bs <= 281474976710656 ->
+  st_total fixed (read_value fixed bs r) (2 * mr_avail r + W bs).
+Proof.
+  intros HI Hbs. eapply st_total_of; [apply (read_value_spec fixed bs r 0 HI Hbs)|]. unfold W. lia.
+Qed.
+
+Theorem kv_next_total fixed bs r :
+  mr_inv r -> bs <= 281474976710656 ->
+  st_total fixed (kv_next fixed bs r) (2 * mr_avail r + W bs).
+Proof.
+  intros HI Hbs. eapply st_total_of; [apply (kv_next_spec fixed bs r 0 HI Hbs)|]. lia.
+Qed.
+
+Theorem z_next_total fixed bs r :
+  mr_inv r -> bs <= 281474976710656 ->
+  st_total fixed (z_next fixed bs r) (2 * mr_avail r + 4 * W bs + 16).
+Proof.
+  intros HI Hbs. eapply st_total_of; [apply (z_next_spec fixed bs r HI Hbs)|]. lia.
+Qed.
+
+Theorem ventry_next_total fixed bs r :
+  mr_inv r -> bs <= 281474976710656 ->
+  st_total fixed (ventry_next fixed bs r) (2 * mr_avail r + 3 * W bs).
+Proof.
+  intros HI Hbs. eapply st_total_of; [apply (ventry_next_spec fixed bs r HI Hbs)|]. lia.
+Qed.
+
+Theorem execall_next_total fixed bs r :
+  mr_inv r -> bs <= 281474976710656 ->
+  st_total fixed (execall_next fixed bs r) ((mr_avail r + 2) * W bs + 2 * mr_avail r).
+Proof.
+  intros HI Hbs. unfold execall_next.
+  eapply st_total_of; [apply (execall_loop_spec fixed bs (rv_fuel r) r HI Hbs); unfold rv_fuel; lia|]. lia.
 Qed.
